@@ -55,6 +55,7 @@ def main():
             cj.append({"id": j["id"], "schema": j["schema"], "text": j["text"], "root": j["root"], "ops": ops})
     out = cpprun.run_raw(cj, sanitize=True, timeout=600)
     errors = {}
+    entries = []
     n = 0
     for j in cj:
         r = out.get(j["id"], {})
@@ -78,12 +79,34 @@ def main():
                 bad = "swap returned offset %s, message length %d" % (o.get("ret"), len(rv["<"]) // 2)
             elif not o.get("canary_ok"):
                 bad = "swap changed bytes outside the message"
+            if "crash" not in o and "bytes" in o:
+                entries.append((j["id"], vi, rv[">"], o))
             if bad:
                 chk.violation("swap-%d-%d" % (j["id"], vi), C.case_of(cases, jobs, j["id"], vi, {
                     "kind": bad, "foreign": rv[">"], "native": rv["<"],
                     "cpp": {k: o.get(k) for k in ("ret", "bytes", "canary_ok", "crash")}}))
             n += 1
     C.report_build_errors(chk, cases, errors)
+    # ---- the tie of the swap model (model/CppSwap.v, the subject of props/C09.v) to the compiled code: the model
+    # run inside Coq on the same foreign bytes + guard must give the same buffer, returned offset and guard state
+    # (also where the compiled code is wrong: the model reproduces KF-C)
+    names_of = {}
+
+    def cex(en, names):
+        i, vi, foreign, o = en
+        tt = S.to_coq(cases[i][2], names)
+        return "(%d, %d, cpp_swap_case %s %s %s (%d) %s)" % (i, vi, tt, codec.hex_coq(foreign), codec.hex_coq(o["bytes"]),
+                                                             o.get("ret", -1), "true" if o.get("canary_ok") else "false")
+
+    import common
+    work = common.scratch("c09swap")
+    files = codec.write_case_files(work, "swap", entries, cex)
+    for i, vi, r in codec.eval_case_files(files):
+        o = [x for x in entries if x[0] == i and x[1] == vi][0][3]
+        chk.violation("swapmodel-%d-%d" % (i, vi), C.case_of(cases, jobs, i, vi, {
+            "kind": "model/implementation correspondence broken (swap): CppSwap.cpp_swap and the compiled prophy::swap disagree",
+            "model_result": r[:8], "cpp": {k: o.get(k) for k in ("ret", "bytes", "canary_ok")}}), "no-failing-input-found", match=False)
+    chk.coverage["swap_model_cases"] = len(entries)
     chk.coverage["rule"] = ("schemas without a greedy tail (exhaustive-small sampled + random), values as in C01; the big-endian canonical "
                             "encoding (from the Python encoder) is placed between two 64-byte canaries in an 8-aligned buffer and "
                             "prophy::swap<Root> is called (compiled with AddressSanitizer); oracle: buffer equals the little-endian "
